@@ -20,7 +20,8 @@ MANIFEST = {
 
 THEOREMS = ["C14_static_text_roundtrip", "C14_static_text_no_binding_start", "C14_static_text_no_special",
             "C14_legacy_static_text_becomes_binding", "C14_string_literal_roundtrip",
-            "C14_printer_tables_ok", "C14_printer_paren_decision", "C14_text_piece_then_binding"]
+            "C14_printer_tables_ok", "C14_printer_paren_decision", "C14_text_piece_then_binding",
+            "C14_static_text_roundtrip_real_scanner"]
 
 
 def _norm_nodes(nodes):
